@@ -138,3 +138,11 @@ Print Assumptions C07_source_pre_encoded_url.
 Theorem C07_source_str : forall (B : backend) (u : url), gen_str B u = url_str B u.
 Proof. exact gen_str_ok. Qed.
 Print Assumptions C07_source_str.
+
+(** ... and split_netloc, the authority split itself (yarl/_parse.py; partition / rpartition,
+    [x or None], the ASCII-digit guard before int(), the range check): equal to the model on
+    every string, exception type included. *)
+From Yarl Require Import Generated.NetlocGen Proofs.GenSplitProofs.
+Theorem C07_source_split_netloc : forall n : str, gen_split_netloc n = split_netloc n.
+Proof. exact gen_split_netloc_ok. Qed.
+Print Assumptions C07_source_split_netloc.
